@@ -75,6 +75,11 @@ func (c *compiler) compile() (string, error) {
 }
 
 func (c *compiler) write(bb *strings.Builder, i interface{}) {
+	if rv := reflect.ValueOf(i); rv.Kind() == reflect.Ptr && rv.IsNil() {
+		// a typed nil pointer (*time.Time, a Stringer or HTMLer by value receiver, ...) prints nothing
+		return
+	}
+
 	switch t := i.(type) {
 	case time.Time:
 		if dtf, ok := c.ctx.Value("TIME_FORMAT").(string); ok {
